@@ -313,6 +313,19 @@ def main(argv):
                 c.violation("%s: flags lower/flatten/normalize=%s language %s: line %d (counting from 1) %r came out as %r, expected %r" % (kind, fs, code, i + 1, src, g, w),
                             dict(rep, kind=kind, line_index=i + 1, got=g, expected=w))
                 break
+    # unsupported languages: the model says PNoLanguage (UnsupportedLanguageException), the tool must not end with 0
+    for code in ("xx", "EN", "e", "english", ""):
+        st, so, se = run_limited([tool, "-l", code, "--flatten"], stdin=u8("a\u201cb\n"), timeout=30)
+        c.count(("lang", code), nontrivial=True, bucket="tool/unsupported-language")
+        m_ok = True
+        if drv is not None:
+            rc, mo, err = run_lines(drv, ["P 010 %s %s" % (code or "-", hx(u8("a\u201cb\n")))])
+            m_ok = bool(mo) and mo[0] == "NOLANG"
+            if not m_ok:
+                c.broken.append("model accepts the unsupported language %r: %s" % (code, mo[:1]))
+        if st == 0 or st == "timeout":
+            c.violation("unsupported-language-accepted: process_unicode -l %r --flatten ended with status %s and printed %r" % (code, st, so[:60]),
+                        {"op": "process_unicode", "argv": ["-l", code, "--flatten"], "status": st, "stdout": so.decode("utf-8", "replace")})
     # model of the tool vs the tool
     if drv is not None:
         pl = ["P %s %s %s" % (fs, code or P["default_language"], hx(data)) for fs, code, ls, data in truns]
